@@ -7,6 +7,8 @@ package main
 import (
 	"bytes"
 	"context"
+	"encoding/base64"
+	"encoding/gob"
 	"encoding/json"
 	"fmt"
 	"io"
@@ -30,8 +32,8 @@ func init() {
 
 // ---- one emission ----
 // Path "thru": Entry.WriteThru with the explicit instant fixedTime (the default layout).
-// Path "api":  Entry.LogAttrs -> logContext (pooled attribute slice, time.Now()); the logger's
-//              time layout is the constant "@", so the output is comparable byte for byte.
+// Path "api": Entry.LogAttrs -> logContext (pooled attribute slice, time.Now()); the logger's
+// time layout is the constant "@", so the output is comparable byte for byte.
 type c09Step struct {
 	Path string `json:"path"`
 	Rec  EncRec `json:"record"`
@@ -44,7 +46,12 @@ type c09Sink struct {
 	n  int
 }
 
-func (s *c09Sink) Write(p []byte) (int, error) { s.mu.Lock(); s.n += len(p); s.mu.Unlock(); return len(p), nil }
+func (s *c09Sink) Write(p []byte) (int, error) {
+	s.mu.Lock()
+	s.n += len(p)
+	s.mu.Unlock()
+	return len(p), nil
+}
 
 var c09Discard = &c09Sink{}
 
@@ -84,12 +91,23 @@ func c09Logger(st c09Step, w io.Writer) *slog.Entry {
 
 var c09APICaller callerInfo
 
-// the one call site of the api path (pcHere and LogAttrs on the same source line)
+// c09Mark records the program counter of its call site: it is evaluated inside the statement
+// that calls LogAttrs, so file, line and function are those of the record's caller
+//
+//go:noinline
+func c09Mark(args []any) []any {
+	var pcs [1]uintptr
+	runtime.Callers(2, pcs[:])
+	fr, _ := runtime.CallersFrames(pcs[:]).Next()
+	c09APICaller = callerInfo{pcs[0], slog.Safety(fr.File), fr.Line, fr.Function}
+	return args
+}
+
+// the one call site of the api path
 //
 //go:noinline
 func c09CallAPI(l *slog.Entry, lvl slog.Level, msg string, args []any) {
-	ci := pcHere(); l.LogAttrs(context.Background(), lvl, msg, args...) // same line: the record's caller
-	c09APICaller = ci
+	l.LogAttrs(context.Background(), lvl, msg, c09Mark(args)...)
 }
 
 func c09Fire(st c09Step, l *slog.Entry) {
@@ -193,7 +211,33 @@ func c09Used(d map[string]string) bool { // the context has formatted something 
 func c09FreshState() { slog.VerifPoolsFresh() }
 
 // ---- histories ----
+// strings of generated records hold arbitrary bytes, which JSON does not carry: the exact
+// probe and history travel as base64(gob) next to the readable form
+type c09Exact struct {
+	Probe   c09Step
+	History []c09Step
+}
+
+func c09Pack(p c09Step, h []c09Step) string {
+	var b bytes.Buffer
+	must(gob.NewEncoder(&b).Encode(c09Exact{p, h}))
+	return base64.StdEncoding.EncodeToString(b.Bytes())
+}
+
+func c09Unpack(s string) (c09Exact, bool) {
+	var x c09Exact
+	raw, err := base64.StdEncoding.DecodeString(s)
+	if err != nil || len(raw) == 0 {
+		return x, false
+	}
+	if err := gob.NewDecoder(bytes.NewReader(raw)).Decode(&x); err != nil {
+		return x, false
+	}
+	return x, true
+}
+
 type c09Case struct {
+	Exact      string    `json:"exact_gob_base64,omitempty"`
 	Kind       string    `json:"kind"` // fresh | same-goroutine | other-goroutine | parallel | poison
 	Probe      c09Step   `json:"probe"`
 	History    []c09Step `json:"history,omitempty"`
@@ -352,6 +396,7 @@ func c09GenHistory(r *Rng, n int) []c09Step {
 // ---- the driver ----
 func c09Fail(r *Run, key string, c c09Case, fresh, got []byte) {
 	c.Fresh, c.Observed = strconv.Quote(string(fresh)), strconv.Quote(string(got))
+	c.Exact = c09Pack(c.Probe, c.History)
 	c.Why = fmt.Sprintf("%s: the bytes of the probe differ from its bytes on a fresh context: fresh %q, observed %q", key, fresh, got)
 	r.Fail(key, c.Why, c)
 }
@@ -415,12 +460,20 @@ func c09Probe(r *Run, probe c09Step, kind string, runeSet map[rune]bool, fields 
 		}
 		if !bytes.Equal(got, fresh) {
 			small := c09Shrink(c, fresh)
-			c09Fail(r, "C09/after-history", small, fresh, c09Run(&small))
+			small.Probe.Rec = shrinkRec(small.Probe.Rec, func(x EncRec) bool { // then the probe's attributes
+				p := small
+				p.Probe.Rec = x
+				f := c09Case{Kind: "fresh", Probe: p.Probe}
+				fr := c09Run(&f)
+				return !bytes.Equal(c09Run(&p), fr)
+			})
+			f := c09Case{Kind: "fresh", Probe: small.Probe}
+			c09Fail(r, "C09/after-history", small, c09Run(&f), c09Run(&small))
 		}
 		add(c, got, "CProbe")
 	}
-	// (d) poison: every field at once (after a short history), then one field at a time
-	pc := c09Case{Kind: "poison", Probe: probe, History: c09GenHistory(r.R, r.R.Intn(3)), Poison: "*"}
+	// (d) poison: every field at once, then one field at a time (no history, so that the key names the cause)
+	pc := c09Case{Kind: "poison", Probe: probe, Poison: "*"}
 	got := c09Run(&pc)
 	r.Dist["poison:*"]++
 	if !bytes.Equal(got, fresh) {
@@ -442,6 +495,7 @@ func c09Probe(r *Run, probe c09Step, kind string, runeSet map[rune]bool, fields 
 			r.Count(c.SameObject, canonP+string(canon))
 		}
 	}
+	runtime.GC() // collections are off while a case runs; collect between probes (every case starts on fresh pools)
 	return fresh
 }
 
@@ -495,9 +549,8 @@ func c09FreshChildren(r *Run, probes []c09Step, fresh [][]byte) {
 		go func(i int) {
 			defer wg.Done()
 			defer func() { <-sem }()
-			b, _ := json.Marshal(probes[i])
 			cmd := exec.Command(exe, "C09-fresh")
-			cmd.Stdin = bytes.NewReader(b)
+			cmd.Stdin = strings.NewReader(c09Pack(probes[i], nil))
 			var so bytes.Buffer
 			cmd.Stdout = &so
 			t := time.AfterFunc(20*time.Second, func() { _ = cmd.Process.Kill() })
@@ -522,10 +575,14 @@ func c09FreshChildren(r *Run, probes []c09Step, fresh [][]byte) {
 }
 
 func c09FreshChild(args []string) {
-	var st c09Step
 	b, err := io.ReadAll(os.Stdin)
 	must(err)
-	must(json.Unmarshal(b, &st))
+	x, ok := c09Unpack(string(b))
+	if !ok {
+		fmt.Fprintln(os.Stderr, "C09-fresh: bad input")
+		os.Exit(3)
+	}
+	st := x.Probe
 	slog.AddFlags(slog.LnoInterrupt)
 	_ = slog.RegisterLevel(slog.Level(customLevel), "custom13")
 	os.Stdout.Write(c09One(c09Emit(st)))
@@ -587,6 +644,9 @@ func runC09(r *Run) {
 func replayC09(r *Run, file string) {
 	var c c09Case
 	loadReplay(file, &c)
+	if x, ok := c09Unpack(c.Exact); ok {
+		c.Probe, c.History = x.Probe, x.History
+	}
 	_, restore := c09Begin()
 	runeSet := map[rune]bool{}
 	if c.Kind == "" || c.Kind == "set" {
